@@ -521,13 +521,16 @@ def run(ctx):
     nshapes = [(2,), (2, 2), (3, 2), (2, 3), (3, 3), (4, 2), (2, 2, 2), (2, 3, 2), (3, 2, 3), (2, 2, 2, 2), (2, 3, 2, 2)]
     if thorough:
         nshapes += [(5,), (5, 4), (4, 5), (5, 5), (3, 3, 3), (4, 3, 2), (2, 4, 5), (3, 2, 2, 3), (3, 3, 3, 3), (2, 5, 2, 4)]
-    for nums in nshapes:
+    DELTAS = [0.0, 1e-9, 5e-9, 1e-8, 2e-8, 0.0, 1.0]
+    for nums in nshapes + [(2, 2), (3, 2), (2, 3, 2)] * (3 if thorough else 1):
         N = len(nums)
         for rep in range(4 if thorough else 2):
-            kind = rng.choice(["int3", "int2", "coord", "cyclic"])
+            kind = rng.choice(["int3", "int2", "coord", "cyclic", "near_tie", "near_tie"])
             if kind == "cyclic" and (N != 2 or nums[0] != nums[1]):
                 kind = "int3"
-            if kind == "cyclic":    # matching-pennies / rock-paper-scissors structure: no pure equilibrium
+            if kind == "near_tie":  # payoffs differing by 0, 1e-9, 5e-9, 1e-8, 2e-8 (exact doubles): the tolerance passed decides
+                data = np.array([0.0 - rng.choice(DELTAS) for _ in range(int(np.prod(nums)) * N)]).reshape(tuple(nums) + (N,))
+            elif kind == "cyclic":    # matching-pennies / rock-paper-scissors structure: no pure equilibrium
                 k = nums[0]
                 data = np.array([[[1 if i == j else -1, -1 if i == j else 1] for j in range(k)] for i in range(k)])
                 data = data[:, rng.sample(range(k), k), :]
@@ -539,7 +542,7 @@ def run(ctx):
                 data = np.array([rng.randrange(-r, r + 1) for _ in range(int(np.prod(nums)) * N)]).reshape(tuple(nums) + (N,))
             g = NormalFormGame(data)
             per = []
-            for tolv in (None, 0.0, 1.0):
+            for tolv in ((None, 0, 0.0, 1e-12, 1e-8, 1e-3) if kind == "near_tie" else (None, 0.0, 1.0)):
                 try:
                     out = pure_nash_brute(g, tol=tolv)
                     out = [tuple(int(v) for v in a) for a in out]
